@@ -4,6 +4,7 @@ import (
 	"flag"
 	"fmt"
 	"os"
+	"path/filepath"
 	"sort"
 	"strconv"
 )
@@ -34,7 +35,14 @@ func main() {
 		ids = append(ids, id)
 	}
 	sort.Strings(ids)
+	alphaDir = filepath.Join(*verif, "fgcheck")
 	switch *prop {
+	case "gen-localnames":
+		if err := alphaGenerate(filepath.Join(alphaDir, "localnames.json.gz")); err != nil {
+			fmt.Fprintln(os.Stderr, err)
+			os.Exit(2)
+		}
+		return
 	case "manifest":
 		printManifest()
 		return
